@@ -160,6 +160,11 @@ func (u c15LazyUser) String() string {
 	return "alice"
 }
 
+// c15Counter is a LogValuer whose value moves on.
+type c15Counter struct{ n int }
+
+func (c *c15Counter) LogValue() logslog.Value { return logslog.IntValue(c.n) }
+
 type c15PanickingValuer struct{}
 
 func (c15PanickingValuer) LogValue() logslog.Value { panic("c15: LogValue panics") }
@@ -515,6 +520,37 @@ func runC15(r *run) {
 		if string(got) != want {
 			r.violate(violation{What: "a record handled through the adapter does not carry exactly its own attributes (another record was formatted while it was being written)",
 				Input: map[string]any{"round": round, "call": `Info("request served", "actor", <value whose String() logs natively>, "bytes", n, "path", "/index.html", "status", 200)`}, Expected: want, Actual: string(got)})
+		}
+	}
+
+	// ---- a group value built once and passed with several records, one member of which is a LogValuer whose value moves
+	// on: every record shows the value of its own moment, and the caller's group is not rewritten
+	for round := 0; round < 4; round++ {
+		out := &recorder{}
+		l := slog.New("c15counter").SetWriter(out).SetErrorWriter(out)
+		lg := logslog.New(slog.NewSlogHandler(l, &slog.HandlerOptions{NoColor: true, NoSource: true, JSON: round%2 == 0, Level: slog.InfoLevel}))
+		ctr := &c15Counter{}
+		var grp logslog.Attr
+		if round < 2 {
+			grp = logslog.Group("stats", logslog.Any("served", ctr), logslog.Int("fixed", 7))
+		} else {
+			grp = logslog.Group("stats", logslog.Group("inner", logslog.Any("served", ctr)), logslog.Int("fixed", 7))
+		}
+		for k := 1; k <= 3; k++ {
+			ctr.n = k * 11
+			lg.Info("snapshot", grp)
+			w := out.take()
+			want := fmt.Sprintf("served=%d", k*11)
+			if round%2 == 0 {
+				want = fmt.Sprintf(`"served":%d`, k*11)
+			}
+			r.seen(fmt.Sprintf("shared-group-valuer|%d|%d", round, k))
+			if len(w) != 1 || !strings.Contains(string(w[0]), want) {
+				r.violate(violation{What: "a LogValuer inside a group value that is passed with several records is not resolved for each record",
+					Input:    map[string]any{"record_number": k, "nested": round >= 2, "json": round%2 == 0, "group": "Group(\"stats\", served=<LogValuer>, fixed=7) built once"},
+					Expected: want, Actual: fmt.Sprintf("%q", w)})
+				break
+			}
 		}
 	}
 
